@@ -13,6 +13,10 @@ func init() {
 			c03CloseData(c)
 			// what the handlers read is what NextFrame installs (unmasked, limited to the frame)
 			readerNextFrameRules(c, "C08")
+			c02Streams(c)
+			// control frames are routed to the handlers by these helpers
+			helperReadDataRules(c, "C08")
+			helperReadMessageRules(c, "C08")
 		},
 	})
 }
